@@ -351,6 +351,11 @@ class Assume:
         S = self.ctx.S
         if not isinstance(item, Str):
             return [env]
+        if isinstance(coll, RegDict):
+            k = S.const_value(env, item)
+            if k is not None:
+                env.facts = env.facts | {('haskey' if isin else 'nokey', id(coll), k)}
+            return [env]
         members = None
         if isinstance(coll, Str):
             cv = S.const_value(env, coll)
@@ -443,7 +448,7 @@ class Assume:
         fv = None
         if isinstance(f, (ast.Name, ast.Attribute)):
             try_fv = self.eval(f, env.copy()) if isinstance(f, ast.Attribute) else self.eval(f, env)
-            if isinstance(try_fv, Func) and (try_fv.mod, try_fv.name) not in (('stdnum.util', 'isdigits'), ('stdnum.util', 'clean'), ('stdnum.util', 'get_cc_module'), ('stdnum.numdb', 'get')) and not try_fv.mod.startswith('stdnum.util'):
+            if isinstance(try_fv, Func) and (try_fv.mod, try_fv.name) not in self.SUMMARISED:
                 args = [self.eval(x, env) for x in node.args]
                 kwargs = {k.arg: self.eval(k.value, env) for k in node.keywords if k.arg}
                 outs = self.call_func(try_fv, args, kwargs, node, env.copy(), multi=True)
@@ -451,14 +456,6 @@ class Assume:
                 for e, v in outs or []:
                     res.extend(self.assume_value(v, truth, e, node))
                 return res
-        if isinstance(f, ast.Name):
-            fv = self.eval(f, env)
-            if isinstance(fv, Func) and (fv.mod, fv.name) == ('stdnum.util', 'isdigits') and len(node.args) == 1:
-                sv = self.eval(node.args[0], env)
-                if not isinstance(sv, Str):
-                    self.ctx.raise_('TypeError', node, env, 'isdigits(%r)' % (sv,))
-                    return [env]
-                return self.match_refine(self.isdigits_lang, sv, truth, env)
         if isinstance(f, ast.Attribute):
             obj = self.eval(f.value, env)
             name = f.attr
@@ -491,6 +488,17 @@ class Assume:
                         part = S.slice(env, n, 0, len(p)) if name == 'startswith' else S.slice(env, n, -len(p), None)
                         for c, ch in zip(part.pre, p):
                             S.refine_cell(env, c, self.B.cls_of_chars(ch))
+                        if name == 'startswith' and len(p) == 2 and ('ibanstruct', obj.sid) in env.facts and self.iban_structs is not None:
+                            st = self.iban_structs.get(p)
+                            if st is None:
+                                return []          # no such country in the registry: the structure match cannot have succeeded
+                            m = S.set_len(env, n, 4 + len(st), 4 + len(st))
+                            if m is None or env.dead:
+                                return []
+                            for c, cls in zip(m.pre[4:], st):
+                                S.refine_cell(env, c, cls)
+                            if env.dead:
+                                return []
                         return [env]
                     if len(p) == 1 and (obj.lo or 0) >= 1:
                         part, _ = S.index(env, obj, 0 if name == 'startswith' else -1)
@@ -499,6 +507,11 @@ class Assume:
             if isinstance(obj, RegexV) and name in ('match', 'search', 'fullmatch') and len(node.args) == 1:
                 sv = self.eval(node.args[0], env)
                 if isinstance(sv, Str):
+                    if obj.reg is not None and truth and obj.lang is None:
+                        # the BBAN (query[4:]) matched the structure registered for the query's country
+                        if sv.parent is not None and sv.parent[0] == obj.reg[2] and sv.parent[1] == 4 and sv.parent[2] == 0:
+                            env.facts = env.facts | {('ibanstruct', obj.reg[2])}
+                        return [env]
                     return self.match_refine(obj.lang, sv, truth, env)
             if isinstance(obj, Ext) and obj.name == 're' and name in ('match', 'search') and len(node.args) >= 2:
                 pv = self.eval(node.args[0], env)
